@@ -112,6 +112,10 @@ class Gen:
 
     def steps(self, d, no_struct):
         out = []
+        if d <= 1 and self.rng.chance(1, 60):
+            # the longest chain of steps the grammar allows
+            self.note("ST.chain-of-126")
+            return ["steps"] + [["member", "m%d" % (i % 7)] for i in range(126)]
         for _ in range(self.rng.pick([0, 0, 0, 1, 1, 2, 3])):
             if self.rng.chance(1, 2):
                 self.note("ST.member")
@@ -142,7 +146,7 @@ class Gen:
             return ["deref", 0, self.name("v"), ["steps"] if deep else self.steps(d, no_struct)]
         if k == 6:
             self.note("E.addr")
-            depth = r.pick([1, 1, 1, 2, 3])
+            depth = r.pick([1, 1, 1, 1, 2, 2, 3, 126, 127])
             return ["deref", depth, self.name("v"), self.steps(d, no_struct)]
         if k == 7:
             self.note("E.call")
@@ -169,7 +173,7 @@ class Gen:
             return ["sizeof", self.ty("top", 1)]
         if k == 1:
             self.note("E.lengthof")
-            return ["lengthof", r.pick([0, 0, 0, 1, 2]), self.name("v"), self.steps(d, no_struct)]
+            return ["lengthof", r.pick([0, 0, 0, 0, 1, 1, 2, 126, 127]), self.name("v"), self.steps(d, no_struct)]
         if k in (2, 3):
             op = r.pick(["Negative", "BitwiseComplement"])
             e = self.primary(d, no_struct)
@@ -234,7 +238,8 @@ class Gen:
     def ref(self, branch=False):
         r = self.rng
         # `if a == b &x = 1;` would read the `&` as a bitwise operator
-        return ["ref", 0 if branch else r.pick([0, 0, 0, 1, 2]), self.name("v"), self.steps(1, False)]
+        # the depth limit (127) is part of the grammar: at the limit the reference is still valid
+        return ["ref", 0 if branch else r.pick([0, 0, 0, 0, 1, 1, 2, 126, 127]), self.name("v"), self.steps(1, False)]
 
     @staticmethod
     def ends_open(s):
